@@ -176,7 +176,7 @@ func vfRunScenario(t *testing.T, rec *vfRec, sc map[string]any) {
 				rec.emit("dial", "ifi", n, "k", 0, "res", res)
 				return nil, vfErrClass(res)
 			}
-			c := w.newConn()
+			c := w.newConn(n)
 			connMu.Lock()
 			curConn[n] = c
 			connMu.Unlock()
